@@ -172,6 +172,8 @@ pub fn c13(rng: &mut Rng, tier: &str, _idx: usize) -> Case {
         for t in TRANSFORMS {
             // the transformed set, then every resolving / aggregating view of it
             c.op(format!("setq 0 {l} {t},iter,get,gene_ids,categories,ic"));
+            // every aggregating view BEFORE and after the transformation, on the same object
+            c.op(format!("setq 0 {l} ic,gene_ids,omim_ids,orpha_ids,categories,{t},ic,gene_ids,omim_ids,orpha_ids,categories,show"));
         }
         if rng.chance(1, 3) {
             let k = rng.range(2, 5);
@@ -398,7 +400,56 @@ fn edit(rng: &mut Rng, f: &mut Facts, flags: &mut Flags, kind: &str) -> bool {
     }
 }
 
+/// ontologies WITHOUT terms that still hold records (the crate's own `compare` doc example), against
+/// each other and against an ontology that annotates the same record ids
+fn c18_termless(rng: &mut Rng) -> Case {
+    let mut c = Case::new("termless");
+    let recs: Vec<(usize, u32, String)> =
+        (0..rng.range(2, 6)).map(|i| (rng.below(3) as usize, 1 + i as u32, gen_name(rng))).collect();
+    for slot in 0..2u32 {
+        c.op("new".to_string());
+        c.op("complete".to_string());
+        c.op("connect".to_string());
+        for (k, id, nm) in &recs {
+            let nm = if slot == 1 && rng.chance(1, 2) { format!("{nm} renamed") } else { nm.clone() };
+            if slot == 0 || rng.chance(4, 5) {
+                c.op(format!("addrec {} {} {}", KINDS[*k], id, name(&nm)));
+            }
+        }
+        if slot == 1 {
+            c.op(format!("addrec g 77 {}", name("only new")));
+        }
+        c.op("ic".to_string());
+        c.op(format!("build min {slot}"));
+    }
+    // the same record ids, annotated to terms
+    c.op("new".to_string());
+    for t in [1u32, 118, 5, 6] {
+        c.op(format!("term {t} {}", name(&gen_name(rng))));
+    }
+    c.op("complete".to_string());
+    c.op("parent 1 118".to_string());
+    c.op("parent 118 5".to_string());
+    c.op("parent 118 6".to_string());
+    c.op("connect".to_string());
+    for (k, id, nm) in &recs {
+        c.op(format!("ann {} {} {} {}", KINDS[*k], id, name(nm), if rng.chance(1, 2) { 5 } else { 6 }));
+    }
+    c.op("ic".to_string());
+    c.op("build def 2".to_string());
+    for (a, b) in [(0, 1), (1, 0), (0, 2), (2, 0), (1, 2), (2, 1), (0, 0)] {
+        c.op(format!("compare {a} {b}"));
+        c.op(format!("oracle compare {a} {b}"));
+    }
+    c.stat("termless_ontologies", 2);
+    c.nontrivial = true;
+    c
+}
+
 pub fn c18(rng: &mut Rng, _tier: &str, idx: usize) -> Case {
+    if idx % 25 == 12 {
+        return c18_termless(rng);
+    }
     let kind = EDIT_KINDS[idx % EDIT_KINDS.len()];
     let mut c = Case::new(kind);
     let max_terms = *rng.pick(&[3usize, 6, 10, 20, 35]);
